@@ -556,8 +556,26 @@ Fixpoint unsafe_text (s : str) : bool :=
      end) || unsafe_text r
   end.
 
+(* the environment of pipeline templates (PipelineTemplateEnvironment, repair of D36) also refuses to CALL into the processing
+   code through the objects of the template context: the loaders take the security opt-ins as plain arguments, a template that
+   could call them would grant itself what the caller did not grant.  Read off the template text: a call of a from_yaml /
+   from_dict attribute *)
+Fixpoint prefix_of (p s : str) : bool :=
+  match p, s with
+  | [], _ => true
+  | a :: p', b :: s' => (a =? b) && prefix_of p' s'
+  | _ :: _, [] => false
+  end.
+Definition call_from_yaml := Eval vm_compute in lit ".from_yaml(".
+Definition call_from_dict := Eval vm_compute in lit ".from_dict(".
+Fixpoint calls_loader (s : str) : bool :=
+  match s with
+  | [] => false
+  | _ :: r => prefix_of call_from_yaml s || prefix_of call_from_dict s || calls_loader r
+  end.
+
 Definition tpl_unsafe (E : env) (m : list (str * yv)) : bool :=
-  match tpl_source E m with Ok t => unsafe_text t | _ => false end.
+  match tpl_source E m with Ok t => unsafe_text t || calls_loader t | _ => false end.
 Definition is_type (ty : str) (m : list (str * yv)) : bool :=
   match lookup k_type m with Some (YStr t) => str_eqb t ty | _ => false end.
 
